@@ -27,6 +27,9 @@ CHECKS = {
  "C06": dict(tech="static analysis: provenance of response/store fields, armed path queries (collision -> bump -> full rescan), recompute-after-store freshness rule, test-and-repair must-pass rules, listener pairing on SSA",
    text="Structural necessary conditions decided exactly for their clause: reply field provenance in basic and interleaved arms and the arm's guard; a collision with a stored receive timestamp reaches the reply/store only through the +1 bump and a complete rescan from index 0; 64-bit forms are recomputed after every store to *rxt/*txt before use; rx<tx test-and-repair after each bump and before updateTXTimestamp touches the store; kernel transmit time replaces the stored one only when different, otherwise the exchange is removed; all item accesses rooted at tss[clientID]; listeners hand the same client id and receive time to both calls, id from the datagram source, kernel tx time iff read ok with expected id. Behaviour over histories is not decided.",
    ref="DESIGN.md §4 C06"),
+ "C12": dict(tech="static analysis: lockset over struct fields, must-pass validity/renewal gates, who-may-store rule for key identifiers, provenance of the validity window on SSA",
+   text="Structural necessary conditions decided exactly for their clause: every accessor of keys/currentID/generatedAt holds p.mu (or is generateNext called only under the lock / the constructor on a fresh object); ids only by +1 behind the overflow panic, one insert under the new id; Get returns a key only through map hit and IsValidAt(time.Now()); IsValidAt == !Before(NotBefore)&&!After(NotAfter); Current returns without generating only through valid-now and generated-within-24h and returns keys[currentID] read afterwards; generateNext stamps generatedAt=NotBefore=time.Now(), NotAfter=+72h, retires only expired keys; constants 24h/72h. The day arithmetic and wall-clock steps are not decided.",
+   ref="DESIGN.md §4 C12"),
 }
 NA = {
  "C04": "all clauses are value arithmetic over time.Time/uint32 (truncation direction, era unfolding, order preservation); no structural or finite-domain clause; matching the constants would be a frozen-fragment proxy",
